@@ -3,6 +3,7 @@ package nexus
 import (
 	"context"
 	"fmt"
+	"strings"
 	"sync"
 )
 
@@ -240,10 +241,20 @@ func (v *VLANAllocator) LoadFromStore(ctx context.Context, ntes []*NTE) error {
 	v.mu.Lock()
 	defer v.mu.Unlock()
 
+	var conflicts []string
 	for _, nte := range ntes {
 		if nte.STag == 0 || nte.CTag == 0 {
 			continue
 		}
+
+		// A pair identifies one NTE: never record it for a second one.
+		if owner, used := v.sTagUsage[nte.STag][nte.CTag]; used && owner != nte.ID {
+			conflicts = append(conflicts, fmt.Sprintf("%s: %d.%d is held by %s", nte.ID, nte.STag, nte.CTag, owner))
+			continue
+		}
+
+		// An NTE that already holds a pair moves: free the old pair first.
+		v.releaseUnlocked(nte.ID)
 
 		alloc := &VLANAllocation{
 			STag:  nte.STag,
@@ -258,6 +269,9 @@ func (v *VLANAllocator) LoadFromStore(ctx context.Context, ntes []*NTE) error {
 		v.sTagUsage[nte.STag][nte.CTag] = nte.ID
 	}
 
+	if len(conflicts) > 0 {
+		return fmt.Errorf("conflicting stored VLAN pairs skipped: %s", strings.Join(conflicts, "; "))
+	}
 	return nil
 }
 
